@@ -47,7 +47,7 @@ Ev(op, args, argt, argtg, r, each) ==
    pe |-> r.st \in {"ArgumentError", "CollisionError", "OutOfBounds", "TextgridStateError", "TierNameExistsError",
                     "TextgridStateAutoModified", "WrongOption"},
    ret |-> r.ret, rett |-> r.rett, post |-> r.post, argtpost |-> argt, argtgpost |-> argtg, out |-> r.out,
-   each |-> each, valid |-> IF IsTg(r.ret) THEN ValidTg(r.ret) ELSE TRUE, alias |-> FALSE,
+   each |-> each, valid |-> IF IsTg(r.ret) THEN ValidTg(r.ret) ELSE TRUE, alias |-> FALSE, variant |-> 0,
    arith |-> TRUE, exactfp |-> TRUE]
 
 Init == /\ tg \in (IF Mode = "map" THEN {EmptyTg(Unset, Unset)} ELSE MyEdit)
